@@ -1,8 +1,741 @@
 /-
-  C16 — pass-through tables are forwarded and merged faithfully.  (theorems: see below)
+  C16 — pass-through tables are forwarded and merged faithfully.
+
+  A query on a table lmd does not cache (the log table) is split into the request every selected,
+  reachable backend receives and the LMD-side columns (peer_key, peer_name, …) lmd fills in itself.
+  The theorems follow the request through the model `Lmd.Passthrough`:
+
+    1. `sub_request_carries`, `extra_sort_columns`, `extra_backend_columns` — what the backends are asked
+    2. `who_is_asked`, `failed_exact`, `answering_or_failed`, `failing_peer_no_influence` — who is asked
+    3. `splice_eq_weave`, `splice_positions`, `splice_requested_positions`, `splice_cut` — the reply rows
+    4. `merge_complete`, `merge_unsorted`, `mem_spliced` — nothing lost, nothing invented
+    5. `ptLe_total`, `ptLe_trans`, `keys_same_shape`, `merge_sorted`, `sort_key_column` — the order
+    6. `window_genuine` — Limit and Offset
+    7. `apply_one`, `stats_groups`, `group_slot_final`, `counters_add_up` — Stats rows add up
+    8. `no_answer_zero`, `no_answer_data` — nobody answers
+
+  The replies of the backends are arbitrary data (`PTPeer.reply`); helper lemmas live in
+  `Lmd.Lemmas.PassthroughLemmas` (namespace `Lmd.PT`).  Vocabulary used in the statements:
+  `PT.allCols t req` is the row lmd builds (requested columns, then the sort columns that are not
+  requested), `PT.weave peer cols brow` walks along `cols` and takes the LMD-side value for an LMD-side
+  column and the next backend cell otherwise, `PT.nv cols` counts the backend-side columns of `cols`,
+  `PT.spliced t req peers` are the spliced reply rows of all answering backends, `PT.cutRow t req r`
+  cuts the added sort columns off again.
 -/
-import Lmd.Passthrough
+import Lmd.Lemmas.PassthroughLemmas
 
 namespace Lmd.C16
+open Lmd.PT
+open Lean (Json)
+
+/-! ## 1. what the backends are asked -/
+
+/-- the sort columns lmd has to add to the row because they are not requested: the first sort column of
+    every name that is not a requested column name, in the order of the `Sort:` headers -/
+abbrev extraSortCols (t : Table) (req : Request) : List Column :=
+  newSortCols ((requestColumns t req).map (·.name)) req.sort
+
+/-- The request every backend receives has the client's table, filter, stats, limit and user unchanged,
+    asks for JSON with the fixed16 header, carries no Sort and no Offset (lmd sorts and cuts itself), and
+    asks for exactly the backend-side requested columns in request order, followed by the backend-side
+    sort columns that are not requested. -/
+theorem sub_request_carries (t : Table) (req : Request) :
+    let sub := subRequest req (ptPlan t req)
+    sub.table = req.table ∧ sub.filter = req.filter ∧ sub.stats = req.stats ∧ sub.limit = req.limit ∧
+    sub.authUser = req.authUser ∧ sub.outFmt = .json ∧ sub.fixed16 = true ∧ sub.sort = [] ∧ sub.offset = 0 ∧
+    sub.columns = (ptPlan t req).backendCols ∧
+    (ptPlan t req).backendCols =
+      ((requestColumns t req).filter (·.storage != .virt)).map (·.name) ++
+      ((extraSortCols t req).filter (·.storage != .virt)).map (·.name) := by
+  refine ⟨rfl, rfl, rfl, rfl, rfl, rfl, rfl, rfl, rfl, rfl, ?_⟩
+  rw [(ptPlan_planOf t req).backend, allCols, backendOf_append]
+  rfl
+
+/-- The added sort columns: no name twice, none of them named like a requested column, all of them
+    columns of `Sort:` headers and in the order of these headers; and every sort column is either named
+    like a requested column or named like one of the added ones — so every sort key can be read from the
+    row lmd builds. -/
+theorem extra_sort_columns (t : Table) (req : Request) :
+    ((extraSortCols t req).map (·.name)).Nodup ∧
+    (∀ c ∈ extraSortCols t req, c.name ∉ (requestColumns t req).map (·.name)) ∧
+    (extraSortCols t req).Sublist (req.sort.filterMap (·.col)) ∧
+    (∀ sf ∈ req.sort, ∀ c, sf.col = some c →
+      c.name ∈ (requestColumns t req).map (·.name) ∨ c.name ∈ (extraSortCols t req).map (·.name)) :=
+  ⟨newSortCols_nodup _ _, newSortCols_not_seen _ _, newSortCols_sublist _ _,
+    fun sf hsf c hc => newSortCols_cover _ _ sf c hsf hc⟩
+
+/-- The extra part of the backend column list: each name once; every element is the name of a sort
+    field's column that is backend-side and not among the requested column names; and conversely — when
+    sort columns of the same name are the same column, as they are after parsing, where the column is
+    looked up by name — every such sort column occurs. -/
+theorem extra_backend_columns (t : Table) (req : Request) :
+    let extra := ((extraSortCols t req).filter (·.storage != .virt)).map (·.name)
+    extra.Nodup ∧
+    (∀ e ∈ extra, ∃ sf ∈ req.sort, ∃ c, sf.col = some c ∧ c.storage ≠ .virt ∧ c.name = e ∧
+      e ∉ (requestColumns t req).map (·.name)) ∧
+    ((∀ sf ∈ req.sort, ∀ sf' ∈ req.sort, ∀ c c', sf.col = some c → sf'.col = some c' → c.name = c'.name → c = c') →
+      ∀ sf ∈ req.sort, ∀ c, sf.col = some c → c.storage ≠ .virt →
+        c.name ∉ (requestColumns t req).map (·.name) → c.name ∈ extra) := by
+  obtain ⟨hnd, hns, hsub, hcov⟩ := extra_sort_columns t req
+  have hmemsort : ∀ c ∈ extraSortCols t req, ∃ sf ∈ req.sort, sf.col = some c := by
+    intro c hc
+    have := hsub.subset hc
+    rw [List.mem_filterMap] at this
+    exact this
+  refine ⟨?_, ?_, ?_⟩
+  · exact hnd.sublist ((List.filter_sublist).map _)
+  · intro e he
+    rw [List.mem_map] at he
+    obtain ⟨c, hc, rfl⟩ := he
+    rw [List.mem_filter] at hc
+    obtain ⟨sf, hsf, hsc⟩ := hmemsort c hc.1
+    exact ⟨sf, hsf, c, hsc, by simpa using hc.2, rfl, hns c hc.1⟩
+  · intro huniq sf hsf c hc hnv hnr
+    rcases hcov sf hsf c hc with h | h
+    · exact absurd h hnr
+    · rw [List.mem_map] at h
+      obtain ⟨d, hd, hdn⟩ := h
+      obtain ⟨sf', hsf', hsc'⟩ := hmemsort d hd
+      have : d = c := huniq sf' hsf' sf hsf d c hsc' hc hdn
+      subst this
+      rw [List.mem_map]
+      exact ⟨d, List.mem_filter.mpr ⟨hd, by simpa using hnv⟩, rfl⟩
+
+/-- After parsing, a sort field's column is the table's column of the field's name (`SetSortColumns`);
+    then sort columns of the same name are the same column, the hypothesis of `extra_backend_columns`. -/
+theorem parsed_sort_columns_by_name (t : Table) (sort : List SortField)
+    (h : ∀ sf ∈ sort, sf.col = t.col? sf.name) :
+    ∀ sf ∈ sort, ∀ sf' ∈ sort, ∀ c c', sf.col = some c → sf'.col = some c' → c.name = c'.name → c = c' := by
+  intro sf hsf sf' hsf' c c' hc hc' hn
+  rw [h sf hsf] at hc
+  rw [h sf' hsf'] at hc'
+  have h1 : c.name = sf.name := by simpa using List.find?_some hc
+  have h2 : c'.name = sf'.name := by simpa using List.find?_some hc'
+  have : sf.name = sf'.name := by rw [← h1, ← h2, hn]
+  rw [this] at hc
+  rw [hc] at hc'
+  exact Option.some.inj hc'
+
+/-! ## 2. who is asked, who failed -/
+
+/-- The backends whose rows are used are exactly the reachable backends whose query succeeded, in the
+    order of the backend list, each with its own reply. -/
+theorem who_is_asked (peers : List PTPeer) :
+    (ptAnswering peers).map (·.1) = peers.filter (fun p => p.online && p.reply.isSome) ∧
+    (∀ pr ∈ ptAnswering peers, pr.1 ∈ peers ∧ pr.1.online = true ∧ pr.1.reply = some pr.2) :=
+  ⟨ptAnswering_fst peers, ptAnswering_reply peers⟩
+
+/-- The failed map has exactly one entry for every backend that is not used, in order: an unreachable
+    backend with its last error, a reachable backend whose query failed with the error of the query; a
+    backend that answers has no entry. -/
+theorem failed_exact (peers : List PTPeer) :
+    ptFailed peers =
+      (peers.filter (fun p => !(p.online && p.reply.isSome))).map
+        (fun p => (p.id, if !p.online then p.lastError else p.err)) :=
+  ptFailed_eq peers
+
+/-- Every backend is either used or in the failed map, never both: the two lists together have one entry
+    per backend, a backend is used exactly if it is reachable and answered, and it is reported as failed
+    otherwise. -/
+theorem answering_or_failed (peers : List PTPeer) :
+    (ptAnswering peers).length + (ptFailed peers).length = peers.length ∧
+    (∀ p ∈ peers, (p ∈ (ptAnswering peers).map (·.1) ↔ (p.online && p.reply.isSome) = true)) ∧
+    (∀ p ∈ peers, (p.online && p.reply.isSome) = false →
+      (p.id, if !p.online then p.lastError else p.err) ∈ ptFailed peers) := by
+  refine ⟨?_, ?_, ?_⟩
+  · have h1 : (ptAnswering peers).length = (peers.filter answers).length := by
+      rw [← ptAnswering_fst, List.length_map]
+    rw [h1, ptFailed_eq, List.length_map]
+    clear h1
+    induction peers with
+    | nil => rfl
+    | cons p ps ih =>
+      cases h : answers p <;> simp only [List.filter_cons, h, Bool.not_false, Bool.not_true, if_true,
+        Bool.false_eq_true, if_false, List.length_cons] <;> omega
+  · intro p hp
+    rw [ptAnswering_fst, List.mem_filter]
+    simp [answers, hp]
+  · intro p hp hna
+    rw [ptFailed_eq, List.mem_map]
+    exact ⟨p, List.mem_filter.mpr ⟨hp, by simp [answers, hna]⟩, rfl⟩
+
+/-- A backend that fails does not change what the others contribute: rows, sort keys, total and window of
+    a data request and the groups and the skipped count of a Stats request are those of the request sent
+    to the answering backends alone — whose failed map is empty. -/
+theorem failing_peer_no_influence (t : Table) (req : Request) (peers : List PTPeer) :
+    let ok := peers.filter (fun p => p.online && p.reply.isSome)
+    (ptData t req peers).rows = (ptData t req ok).rows ∧
+    (ptData t req peers).keys = (ptData t req ok).keys ∧
+    (ptData t req peers).total = (ptData t req ok).total ∧
+    (ptData t req peers).window = (ptData t req ok).window ∧
+    (ptStats t req peers).rows = (ptStats t req ok).rows ∧
+    (ptStats t req peers).skipped = (ptStats t req ok).skipped ∧
+    ptFailed ok = [] := by
+  have hsp : spliced t req (peers.filter answers) = spliced t req peers := by
+    unfold spliced; rw [ptAnswering_filter]
+  have hck : cutKeyed t req (peers.filter answers) = cutKeyed t req peers := by
+    unfold cutKeyed sortedKeyed keyed; rw [hsp]
+  have hsf : statsFold t req (peers.filter answers) = statsFold t req peers := by
+    unfold statsFold; rw [hsp]
+  have hf : ptFailed (peers.filter answers) = [] := by
+    rw [ptFailed_eq, List.filter_filter]
+    simp
+  refine ⟨?_, ?_, ?_, ?_, ?_, ?_, hf⟩
+  · show (ptData t req peers).rows = (ptData t req (peers.filter answers)).rows
+    rw [ptData_eq, ptData_eq, hck]
+  · show (ptData t req peers).keys = (ptData t req (peers.filter answers)).keys
+    rw [ptData_eq, ptData_eq, hck]
+  · show (ptData t req peers).total = (ptData t req (peers.filter answers)).total
+    rw [ptData_eq, ptData_eq, hck]
+  · show (ptData t req peers).window = (ptData t req (peers.filter answers)).window
+    rw [ptData_eq, ptData_eq, hck]
+  · show (ptStats t req peers).rows = (ptStats t req (peers.filter answers)).rows
+    rw [ptStats_eq, ptStats_eq, hsf]
+  · show (ptStats t req peers).skipped = (ptStats t req (peers.filter answers)).skipped
+    rw [ptStats_eq, ptStats_eq, hsf]
+
+/-- In particular, putting a backend that is down or whose query fails anywhere into the backend list
+    changes neither the rows nor the window nor the Stats groups; it only adds its entry to the failed map. -/
+theorem failing_peer_inserted (t : Table) (req : Request) (a b : List PTPeer) (p : PTPeer)
+    (hp : (p.online && p.reply.isSome) = false) :
+    (ptData t req (a ++ p :: b)).rows = (ptData t req (a ++ b)).rows ∧
+    (ptData t req (a ++ p :: b)).window = (ptData t req (a ++ b)).window ∧
+    (ptStats t req (a ++ p :: b)).rows = (ptStats t req (a ++ b)).rows ∧
+    ptFailed (a ++ p :: b) = ptFailed a ++ (p.id, if !p.online then p.lastError else p.err) :: ptFailed b := by
+  have hf : (a ++ p :: b).filter (fun p => p.online && p.reply.isSome) =
+      (a ++ b).filter (fun p => p.online && p.reply.isSome) := by
+    simp [hp]
+  have h1 := failing_peer_no_influence t req (a ++ p :: b)
+  have h2 := failing_peer_no_influence t req (a ++ b)
+  simp only [hf] at h1
+  refine ⟨h1.1.trans h2.1.symm, h1.2.2.2.1.trans h2.2.2.2.1.symm, h1.2.2.2.2.1.trans h2.2.2.2.2.1.symm, ?_⟩
+  have : ptFailed [p] = [(p.id, if !p.online then p.lastError else p.err)] := by
+    unfold ptFailed
+    cases ho : p.online <;> cases hr : p.reply <;> simp_all
+  rw [show a ++ p :: b = a ++ ([p] ++ b) from rfl, ptFailed_append, ptFailed_append, this]
+  rfl
+
+/-! ## 3. the reply rows -/
+
+/-- The LMD-side values: `peer_key` is the backend's id, `peer_name` its name. -/
+theorem virtual_values (peer : PTPeer) (c : Column) :
+    (c.name = "peer_key" → ptVirtual peer c = .str peer.id) ∧
+    (c.name = "peer_name" → ptVirtual peer c = .str peer.name) := by
+  constructor
+  · intro h; simp [ptVirtual, h]
+  · intro h; simp [ptVirtual, h]
+
+/-- A reply row that has one cell per backend column becomes, after the LMD-side values have been
+    inserted one after the other, the weave of the row lmd builds: walking along the requested columns and
+    then the added sort columns, every LMD-side column holds lmd's value and every other column the next
+    backend cell. -/
+theorem splice_eq_weave (t : Table) (req : Request) (peer : PTPeer) (brow : List Json)
+    (h : brow.length = (ptPlan t req).backendCols.length) :
+    spliceRow peer (ptPlan t req).virtuals brow = weave peer (allCols t req) brow := by
+  have hp := ptPlan_planOf t req
+  rw [hp.virtuals]
+  apply spliceRow_virtualsOf
+  rw [nv_eq_length_backendOf, ← hp.backend, h]
+  exact Nat.le_refl _
+
+/-- Positions in the spliced row: it has one cell per column of the row lmd builds; at the position of an
+    LMD-side column stands lmd's value for this backend (peer_key ↦ its id, peer_name ↦ its name), at the
+    position of any other column stands the backend cell whose number is the count of backend-side columns
+    before that position — so backend values keep their order, also when a column is requested twice. -/
+theorem splice_positions (t : Table) (req : Request) (peer : PTPeer) (brow : List Json)
+    (h : brow.length = (ptPlan t req).backendCols.length) :
+    let row := spliceRow peer (ptPlan t req).virtuals brow
+    row.length = (allCols t req).length ∧
+    ∀ (i : Nat) (c : Column), (allCols t req)[i]? = some c →
+      row[i]? = if c.storage == .virt then some (ptVirtual peer c) else brow[nv ((allCols t req).take i)]? := by
+  have hp := ptPlan_planOf t req
+  have hnv : nv (allCols t req) = brow.length := by
+    rw [nv_eq_length_backendOf, ← hp.backend, h]
+  rw [splice_eq_weave t req peer brow h]
+  refine ⟨?_, ?_⟩
+  · rw [weave_length _ _ _ (by omega)]; omega
+  · intro i c hc
+    exact weave_getElem? peer _ brow (by omega) i c hc
+
+/-- The same for the requested columns alone: position `i` of the spliced row belongs to the `i`-th
+    requested column; the added sort columns stand behind position `cols.length`. -/
+theorem splice_requested_positions (t : Table) (req : Request) (peer : PTPeer) (brow : List Json)
+    (h : brow.length = (ptPlan t req).backendCols.length) :
+    let cols := requestColumns t req
+    let row := spliceRow peer (ptPlan t req).virtuals brow
+    cols.length ≤ row.length ∧
+    (req.sort = [] → row.length = cols.length) ∧
+    ∀ (i : Nat) (c : Column), cols[i]? = some c →
+      row[i]? = if c.storage == .virt then some (ptVirtual peer c) else brow[nv (cols.take i)]? := by
+  obtain ⟨hlen, hpos⟩ := splice_positions t req peer brow h
+  refine ⟨?_, ?_, ?_⟩
+  · rw [hlen]; simp [allCols]
+  · intro hs; rw [hlen, allCols_of_sort_nil t req hs]
+  · intro i c hc
+    have hi : i < (requestColumns t req).length := by
+      rcases Nat.lt_or_ge i (requestColumns t req).length with h | h
+      · exact h
+      · rw [List.getElem?_eq_none h] at hc; cases hc
+    have hc' : (allCols t req)[i]? = some c := by
+      rw [allCols, List.getElem?_append_left hi]; exact hc
+    have ht : (allCols t req).take i = (requestColumns t req).take i := by
+      rw [allCols, List.take_append_of_le_length (by omega)]
+    rw [hpos i c hc', ht]
+
+/-- With a `Sort:` header the spliced row is cut to the requested width before it is answered; what
+    remains is the weave of the requested columns alone with the first backend cells: the sort columns
+    that were fetched in addition are gone. -/
+theorem splice_cut (t : Table) (req : Request) (peer : PTPeer) (brow : List Json)
+    (h : brow.length = (ptPlan t req).backendCols.length)
+    (hw : 0 < (requestColumns t req).length ∨ req.sort = []) :
+    cutRow t req (spliceRow peer (ptPlan t req).virtuals brow) =
+      weave peer (requestColumns t req) (brow.take (nv (requestColumns t req))) := by
+  have hp := ptPlan_planOf t req
+  have hnv : nv (allCols t req) = brow.length := by
+    rw [nv_eq_length_backendOf, ← hp.backend, h]
+  rw [splice_eq_weave t req peer brow h]
+  unfold cutRow
+  by_cases hs : req.sort = []
+  · have hnv' : nv (requestColumns t req) = brow.length := by
+      rw [← hnv, allCols_of_sort_nil t req hs]
+    simp only [hs, List.isEmpty_nil, if_true]
+    rw [allCols_of_sort_nil t req hs, hnv', List.take_length]
+  · have hw' : 0 < (requestColumns t req).length := by
+      rcases hw with h | h
+      · exact h
+      · exact absurd h hs
+    have hse : req.sort.isEmpty = false := by simpa using hs
+    simp only [hse, Bool.false_eq_true, if_false, gt_iff_lt, hw', if_true]
+    rw [allCols]
+    apply weave_append_take
+    have : nv (allCols t req) = nv (requestColumns t req) + nv (extraSortCols t req) := by
+      rw [allCols, nv_append]
+    omega
+
+/-! ## 4. nothing lost, nothing invented -/
+
+/-- A row is a spliced row exactly if it is the spliced form of a reply row of an answering backend. -/
+theorem mem_spliced (t : Table) (req : Request) (peers : List PTPeer) (r : List Json) :
+    r ∈ spliced t req peers ↔
+      ∃ p rows brow, (p, rows) ∈ ptAnswering peers ∧ brow ∈ rows ∧ r = spliceRow p (ptPlan t req).virtuals brow := by
+  simp only [spliced, List.mem_flatMap, List.mem_map]
+  constructor
+  · rintro ⟨⟨p, rows⟩, hpr, brow, hb, rfl⟩
+    exact ⟨p, rows, brow, hpr, hb, rfl⟩
+  · rintro ⟨p, rows, brow, hpr, hb, rfl⟩
+    exact ⟨(p, rows), hpr, brow, hb, rfl⟩
+
+/-- The rows of the merged result are a permutation of the spliced reply rows of all answering backends
+    (cut to the requested width when a Sort is given): nothing is lost and nothing invented, `total` is
+    their number, every row has its sort keys; without Limit and Offset the answered window is all rows. -/
+theorem merge_complete (t : Table) (req : Request) (peers : List PTPeer) :
+    let d := ptData t req peers
+    d.rows.Perm ((spliced t req peers).map (cutRow t req)) ∧
+    d.total = (spliced t req peers).length ∧ d.rows.length = d.total ∧ d.keys.length = d.total ∧
+    (d.keys.zip d.rows).Perm ((spliced t req peers).map fun r => (ptKeys req (ptPlan t req) r, cutRow t req r)) ∧
+    (req.limit = none → req.offset = 0 → d.window = d.rows) := by
+  have hperm := cutKeyed_perm t req peers
+  rw [ptData_eq]
+  refine ⟨?_, ?_, ?_, ?_, ?_, ?_⟩
+  · have := hperm.map (·.2)
+    simpa [Function.comp_def] using this
+  · simpa using hperm.length_eq
+  · simp
+  · simp
+  · have hz : ((cutKeyed t req peers).map (·.1)).zip ((cutKeyed t req peers).map (·.2)) = cutKeyed t req peers := by
+      rw [List.zip_map_left, List.zip_map_right]
+      induction cutKeyed t req peers with
+      | nil => rfl
+      | cons x xs ih => simp [ih]
+    simp only [hz]
+    exact hperm
+  · intro hl ho
+    simp [windowOf, hl, ho]
+
+/-- Without a Sort the rows are the spliced reply rows themselves, backend after backend in the order
+    of the backend list, each backend's rows in the order it sent them. -/
+theorem merge_unsorted (t : Table) (req : Request) (peers : List PTPeer) (h : req.sort = []) :
+    (ptData t req peers).rows = spliced t req peers := by
+  rw [ptData_eq]
+  simp [cutKeyed_of_sort_nil t req peers h, keyed, Function.comp_def]
+
+/-! ## 5. the order -/
+
+/-- The row order of the merge is total: of two key lists one may always stand before the other. -/
+theorem ptLe_total (descs : List Bool) (a b : List PKey) : ptLe descs a b = true ∨ ptLe descs b a = true :=
+  Lmd.PT.ptLe_total descs a b
+
+/-- Well-formedness of key lists: the same length and the same constructor (number, text, other) at
+    every position. -/
+def SameShape (a b : List PKey) : Prop := a.map ktag = b.map ktag
+
+/-- On key lists of the same shape the row order is transitive, for every choice of directions. -/
+theorem ptLe_trans (descs : List Bool) (a b c : List PKey) (hab : SameShape a b) (hbc : SameShape b c)
+    (h1 : ptLe descs a b = true) (h2 : ptLe descs b c = true) : ptLe descs a c = true :=
+  Lmd.PT.ptLe_trans descs a b c hab hbc h1 h2
+
+/-- Without the shape hypothesis transitivity fails: a column type without an order compares equal to
+    everything and would glue 2 before 1. -/
+example : ptLe [false] [.num 2] [.any] = true ∧ ptLe [false] [.any] [.num 1] = true ∧
+    ptLe [false] [.num 2] [.num 1] = false := by decide
+
+/-- The keys of all rows of one request have the same shape, whatever the rows contain: the constructor
+    at a position is decided by the type of the sort column. -/
+theorem keys_same_shape (req : Request) (p : PTPlan) (row row' : List Json) :
+    SameShape (ptKeys req p row) (ptKeys req p row') :=
+  ptKeys_shape req p row row'
+
+/-- The merged rows are ordered by the Sort keys: in the list of keys every earlier key list may stand
+    before every later one in the order `ptLe` of the requested directions. -/
+theorem merge_sorted (t : Table) (req : Request) (peers : List PTPeer) :
+    (ptData t req peers).keys.Pairwise
+      (fun a b => ptLe ((req.sort.filter (·.col.isSome)).map (·.desc)) a b = true) := by
+  rw [ptData_eq]
+  simp only [cutKeyed_keys]
+  rw [List.pairwise_map]
+  exact sortedKeyed_pairwise t req peers
+
+/-- Where the sort keys are read: lmd records one position per sort field (that has a column), and every
+    position points at a column of the built row that is named like the sort field's column — a requested
+    column of that name if there is one, else the added sort column. -/
+theorem sort_key_column (t : Table) (req : Request) :
+    (req.sort.filter (·.col.isSome)).length = (ptPlan t req).sortIdx.length ∧
+    ∀ (k : Nat) (sf : SortField) (j : Nat), (req.sort.filter (·.col.isSome))[k]? = some sf →
+      (ptPlan t req).sortIdx[k]? = some j →
+      ∃ c c', sf.col = some c ∧ (allCols t req)[j]? = some c' ∧ c'.name = c.name :=
+  (allPoint_iff _ _ _).mp (ptPlan_sortIdx t req)
+
+/-! ## 6. Limit and Offset -/
+
+/-- With Limit and Offset the answered window is the contiguous segment of the sorted rows that starts
+    behind `offset` rows and has at most `limit` rows (empty when the offset exceeds the total); every
+    row of it is one of the merged rows, hence a genuine (cut) spliced reply row of an answering backend. -/
+theorem window_genuine (t : Table) (req : Request) (peers : List PTPeer) :
+    let d := ptData t req peers
+    d.window = (match req.limit with
+      | some n => (d.rows.drop req.offset).take n
+      | none => d.rows.drop req.offset) ∧
+    (∀ n, req.limit = some n → d.window.length ≤ n) ∧
+    (req.offset ≥ d.total → d.window = []) ∧
+    d.window.Sublist d.rows ∧
+    (∀ r ∈ d.window, ∃ r' ∈ spliced t req peers, r = cutRow t req r') := by
+  have hwin : (ptData t req peers).window = (match req.limit with
+      | some n => ((ptData t req peers).rows.drop req.offset).take n
+      | none => (ptData t req peers).rows.drop req.offset) := by
+    rw [ptData_eq]
+    simp only [windowOf]
+    cases req.limit <;> simp [List.map_take, List.map_drop]
+  have hsub : (ptData t req peers).window.Sublist (ptData t req peers).rows := by
+    rw [hwin]
+    cases req.limit with
+    | none => exact List.drop_sublist _ _
+    | some n => exact (List.take_sublist _ _).trans (List.drop_sublist _ _)
+  refine ⟨hwin, ?_, ?_, hsub, ?_⟩
+  · intro n hn
+    rw [hwin, hn]
+    simp only [List.length_take]
+    omega
+  · intro ho
+    have hlen := (merge_complete t req peers).2.2.1
+    rw [hwin]
+    have : (ptData t req peers).rows.drop req.offset = [] := List.drop_eq_nil_of_le (by omega)
+    cases req.limit <;> simp [this]
+  · intro r hr
+    have hmem := (merge_complete t req peers).1.subset (hsub.subset hr)
+    rw [List.mem_map] at hmem
+    obtain ⟨r', hr', rfl⟩ := hmem
+    exact ⟨r', hr', rfl⟩
+
+/-! ## 7. Stats rows add up -/
+
+/-- One reply row applied to the accumulators of a group works slot by slot: for a counter the number
+    the backend counted (truncated, negative numbers as 0) is added to the counter, for every other kind
+    the backend's value is applied once (`Acc.apply` with count 1). -/
+theorem apply_one (kinds : List AccKind) (accs : List Acc) (vals : List Json) (i : Nat)
+    (k : AccKind) (a : Acc) (v : Json) (hk : kinds[i]? = some k) (ha : accs[i]? = some a) (hv : vals[i]? = some v) :
+    (ptApply kinds accs vals)[i]? =
+      some (match k with
+        | .counter => a.apply (jsonToMilli v) (Int.toNat (milliTrunc (jsonToMilli v)))
+        | _ => a.apply (jsonToMilli v) 1) := by
+  rw [ptApply_getElem? kinds accs vals i k a v hk ha hv]
+  cases k <;> rfl
+
+/-- the Stats values (one list per reply row) of the well-formed spliced rows whose requested columns have
+    the text `key`, in order -/
+abbrev groupVals (t : Table) (req : Request) (peers : List PTPeer) (key : List String) : List (List Json) :=
+  valsOfKey (req.stats.map StatsEntry.accKind) (requestColumns t req).length key (spliced t req peers)
+
+/-- The grouped form: the Stats rows are grouped by the text of the requested columns; rows with equal
+    key are added into one group (in order), rows with different keys stay apart: a key has a group
+    exactly if some well-formed reply row carries it, no key has two groups, and the group's accumulators
+    are the fold of exactly the rows with that key.  Rows of the wrong width are only counted. -/
+theorem stats_groups (t : Table) (req : Request) (peers : List PTPeer) :
+    let kinds := req.stats.map StatsEntry.accKind
+    let ncol := (requestColumns t req).length
+    let groups := (statsFold t req peers).1
+    (ptStats t req peers).rows =
+      (if req.columns.isEmpty && groups.isEmpty then [([], kinds.map Acc.init)] else groups) ∧
+    (groups.map (·.1)).Nodup ∧
+    (∀ key, glookup groups key =
+      if groupVals t req peers key = [] then none
+      else some ((groupVals t req peers key).foldl (ptApply kinds) (kinds.map Acc.init))) ∧
+    (∀ key, key ∈ groups.map (·.1) ↔
+      ∃ r ∈ spliced t req peers, r.length = ncol + kinds.length ∧ (r.take ncol).map ptKeyText = key) ∧
+    (ptStats t req peers).skipped =
+      ((spliced t req peers).filter (fun r => r.length != ncol + kinds.length)).length := by
+  refine ⟨by rw [ptStats_eq], ?_, ?_, ?_, ?_⟩
+  · exact (foldl_statsStep _ _ _ ([], 0)).2.2 (by simp [gkeys])
+  · intro key
+    exact glookup_foldl_statsStep_nil _ _ _ key
+  · intro key
+    have := gkeys_foldl_statsStep (req.stats.map StatsEntry.accKind) (requestColumns t req).length
+      (spliced t req peers) ([], 0) key
+    simp only [gkeys, List.map_nil, List.not_mem_nil, false_or] at this
+    simpa [goodRow, rowKey, statsFold, gkeys] using this
+  · rw [ptStats_eq]
+    have := (foldl_statsStep (req.stats.map StatsEntry.accKind) (requestColumns t req).length
+      (spliced t req peers) ([], 0)).1
+    simp only [Nat.zero_add] at this
+    simp only [statsFold, this]
+    congr 1
+
+/-- The printed value of every slot of every group: a counter shows the sum of the (truncated,
+    non-negative) numbers the backends answered in the rows of that group, a `sum` the sum of their numbers,
+    `avg` the sum over the number of rows, `min` / `max` the minimum / maximum (`specFinal`, the arithmetic
+    specification of lmd's Stats). -/
+theorem group_slot_final (t : Table) (req : Request) (peers : List PTPeer) (key : List String) (accs : List Acc)
+    (hg : glookup (statsFold t req peers).1 key = some accs)
+    (i : Nat) (kind : AccKind) (hk : (req.stats.map StatsEntry.accKind)[i]? = some kind) :
+    ∃ a, accs[i]? = some a ∧
+      a.final = slotFinal kind ((groupVals t req peers key).map fun vals => vals.getD i Json.null) := by
+  have h := (stats_groups t req peers).2.2.1 key
+  rw [hg] at h
+  split at h
+  · cases h
+  · rw [Option.some.inj h]
+    exact foldl_ptApply_final _ _ (valsOfKey_length _ _ _ _) i kind hk
+
+/-- what `slotFinal` says, kind by kind -/
+theorem slotFinal_cases (cells : List Json) :
+    slotFinal .counter cells = ((((cells.map fun v => Int.toNat (milliTrunc (jsonToMilli v))).sum : Nat) : Int), 1) ∧
+    slotFinal .sum cells = specFinal .sum (cells.map jsonToMilli) ∧
+    slotFinal .avg cells = specFinal .avg (cells.map jsonToMilli) ∧
+    slotFinal .min cells = specFinal .min (cells.map jsonToMilli) ∧
+    slotFinal .max cells = specFinal .max (cells.map jsonToMilli) :=
+  ⟨rfl, rfl, rfl, rfl, rfl⟩
+
+/-- A Stats request without group-by columns: the answer is one row; its accumulators are the fold of
+    the Stats values of all well-formed reply rows of all answering backends, so the final value of a
+    counter is the sum over the backends of the numbers they answered, the final value of a `sum` is the
+    sum of their numbers, and min / max are the minimum / maximum of their values. -/
+theorem counters_add_up (t : Table) (req : Request) (peers : List PTPeer)
+    (hc : req.columns = []) (hs : req.stats ≠ []) :
+    ∃ accs, (ptStats t req peers).rows = [([], accs)] ∧
+      accs = (groupVals t req peers []).foldl (ptApply (req.stats.map StatsEntry.accKind))
+        ((req.stats.map StatsEntry.accKind).map Acc.init) ∧
+      ∀ (i : Nat) (kind : AccKind), (req.stats.map StatsEntry.accKind)[i]? = some kind →
+        ∃ a, accs[i]? = some a ∧
+          a.final = slotFinal kind ((groupVals t req peers []).map fun vals => vals.getD i Json.null) := by
+  have hncol : (requestColumns t req).length = 0 := by
+    have : req.stats.isEmpty = false := by simpa using hs
+    simp [requestColumns, hc, this]
+  obtain ⟨hrows, hnd, hlook, hkeys, _⟩ := stats_groups t req peers
+  refine ⟨_, ?_, rfl, fun i kind hk => foldl_ptApply_final _ _ (valsOfKey_length _ _ _ _) i kind hk⟩
+  have hall : ∀ k ∈ gkeys (statsFold t req peers).1, k = [] := by
+    intro k hk
+    obtain ⟨r, _, _, hr⟩ := (hkeys k).mp hk
+    rw [← hr, hncol]; rfl
+  rw [hrows]
+  rcases groups_single_key _ hall hnd with hg | ⟨a, hg⟩
+  · have := hlook []
+    rw [hg] at this
+    have hv : groupVals t req peers [] = [] := by
+      apply Decidable.byContradiction
+      intro hne; simp [hne, glookup] at this
+    simp [hg, hc, hv]
+  · have := hlook []
+    rw [hg] at this
+    split at this
+    · simp [glookup] at this
+    · have ha : a = (groupVals t req peers []).foldl (ptApply (req.stats.map StatsEntry.accKind))
+          ((req.stats.map StatsEntry.accKind).map Acc.init) := by
+        have h0 : glookup [([], a)] [] = some a := rfl
+        rw [h0] at this
+        exact Option.some.inj this
+      rw [hg, ← ha]
+      simp
+
+/-! ## 8. nobody answers -/
+
+/-- An accumulator nothing was applied to prints as zero. -/
+theorem init_final (k : AccKind) : (Acc.init k).final = (0, 1) := by
+  simp [Acc.final, Acc.init]
+
+/-- If no backend answers, a Stats request without columns yields one row of untouched (zero)
+    accumulators — a Stats request with columns yields no row — and the failed map lists every backend. -/
+theorem no_answer_zero (t : Table) (req : Request) (peers : List PTPeer)
+    (h : ∀ p ∈ peers, (p.online && p.reply.isSome) = false) :
+    (ptStats t req peers).rows =
+      (if req.columns.isEmpty then [([], (req.stats.map StatsEntry.accKind).map Acc.init)] else []) ∧
+    (ptStats t req peers).skipped = 0 ∧
+    (ptStats t req peers).failed = peers.map (fun p => (p.id, if !p.online then p.lastError else p.err)) := by
+  have hans : ptAnswering peers = [] := by
+    rw [ptAnswering_eq]
+    have : peers.filter answers = [] := by
+      rw [List.filter_eq_nil_iff]; intro p hp; simp [answers, h p hp]
+    rw [this]; rfl
+  have hsp : spliced t req peers = [] := by simp [spliced, hans]
+  have hsf : statsFold t req peers = ([], 0) := by simp [statsFold, hsp]
+  have hf : ptFailed peers = peers.map failedEntry := by
+    rw [ptFailed_eq]
+    congr 1
+    rw [List.filter_eq_self]
+    intro p hp; simp [answers, h p hp]
+  rw [ptStats_eq, hsf]
+  refine ⟨?_, rfl, hf⟩
+  cases req.columns.isEmpty <;> rfl
+
+/-- If no backend answers, a data request yields no rows, total 0 and an empty window; the failed map
+    lists every backend. -/
+theorem no_answer_data (t : Table) (req : Request) (peers : List PTPeer)
+    (h : ∀ p ∈ peers, (p.online && p.reply.isSome) = false) :
+    (ptData t req peers).rows = [] ∧ (ptData t req peers).total = 0 ∧ (ptData t req peers).window = [] ∧
+    (ptData t req peers).failed = peers.map (fun p => (p.id, if !p.online then p.lastError else p.err)) := by
+  have hans : ptAnswering peers = [] := by
+    rw [ptAnswering_eq]
+    have : peers.filter answers = [] := by
+      rw [List.filter_eq_nil_iff]; intro p hp; simp [answers, h p hp]
+    rw [this]; rfl
+  have hsp : spliced t req peers = [] := by simp [spliced, hans]
+  have hck : cutKeyed t req peers = [] := by
+    simp [cutKeyed, sortedKeyed, keyed, hsp]
+  have hf : ptFailed peers = peers.map failedEntry := by
+    rw [ptFailed_eq]
+    congr 1
+    rw [List.filter_eq_self]
+    intro p hp; simp [answers, h p hp]
+  rw [ptData_eq, hck]
+  refine ⟨rfl, rfl, ?_, hf⟩
+  simp only [windowOf]
+  cases req.limit <;> simp
+
+/-! ## 9. non-vacuity: a log query over three backends, one of them down -/
+
+namespace Ex
+
+def cPeerKey : Column := { name := "peer_key", dtype := .str, storage := .virt }
+def cPeerName : Column := { name := "peer_name", dtype := .str, storage := .virt }
+def cTime : Column := { name := "time", dtype := .int, storage := .loc }
+def cClass : Column := { name := "class", dtype := .int, storage := .loc }
+def cState : Column := { name := "state", dtype := .int, storage := .loc }
+def cMessage : Column := { name := "message", dtype := .str, storage := .loc }
+def logT : Table :=
+  { name := "log", cols := [cTime, cClass, cState, cMessage, cPeerKey, cPeerName], passthrough := true }
+
+def n (i : Int) : Json := .num ⟨i, 0⟩
+
+/-- `Columns: peer_key time peer_name message` + `Sort: time desc` -/
+def req1 : Request :=
+  { table := "log", columns := ["peer_key", "time", "peer_name", "message"],
+    sort := [{ name := "time", desc := true, col := some cTime }] }
+
+/-- `Columns: peer_key message` + `Sort: time desc`: the sort column is fetched in addition -/
+def req2 : Request :=
+  { table := "log", columns := ["peer_key", "message"],
+    sort := [{ name := "time", desc := true, col := some cTime }] }
+
+def peerA : PTPeer :=
+  { id := "a", name := "Alpha", online := true, reply := some [[n 10, .str "x"], [n 30, .str "y"]] }
+def peerB : PTPeer := { id := "b", name := "Beta", online := true, reply := some [[n 20, .str "z"]] }
+def peerC : PTPeer := { id := "c", name := "Gamma", online := false, lastError := "connection refused", reply := none }
+
+def rowA1 : List Json := [.str "a", n 10, .str "Alpha", .str "x"]
+def rowA2 : List Json := [.str "a", n 30, .str "Alpha", .str "y"]
+def rowB1 : List Json := [.str "b", n 20, .str "Beta", .str "z"]
+
+/-- what the backends are asked for -/
+example : (subRequest req1 (ptPlan logT req1)).columns = ["time", "message"] := by decide
+example : (subRequest req2 (ptPlan logT req2)).columns = ["message", "time"] ∧ extraSortCols logT req2 = [cTime] ∧
+    (ptPlan logT req2).sortIdx = [2] := by decide
+example : requestColumns logT req1 = [cPeerKey, cTime, cPeerName, cMessage] := by decide
+
+/-- the hypothesis of the splice theorems holds for the reply rows of the example -/
+example : [n 10, Json.str "x"].length = (ptPlan logT req1).backendCols.length := by decide
+example : spliceRow peerA (ptPlan logT req1).virtuals [n 10, .str "x"] = rowA1 := by rfl
+/-- the sort column that was fetched in addition stands behind the requested columns and is cut -/
+example : spliceRow peerB (ptPlan logT req2).virtuals [.str "z", n 20] = [.str "b", .str "z", n 20] ∧
+    cutRow logT req2 [.str "b", .str "z", n 20] = [.str "b", .str "z"] := ⟨by rfl, by rfl⟩
+
+/-- who answers, who failed -/
+example : (ptAnswering [peerA, peerC, peerB]).map (·.1.id) = ["a", "b"] ∧
+    ptFailed [peerA, peerC, peerB] = [("c", "connection refused")] := by decide
+
+/-- the spliced rows with their keys, before the sort -/
+theorem keyed1 : keyed logT req1 [peerA, peerC, peerB] =
+    [([.num 10000], rowA1), ([.num 30000], rowA2), ([.num 20000], rowB1)] := by rfl
+
+/-- the merged, sorted rows (`time` descending) -/
+theorem cutKeyed1 : cutKeyed logT req1 [peerA, peerC, peerB] =
+    [([.num 30000], rowA2), ([.num 20000], rowB1), ([.num 10000], rowA1)] := by
+  have h1 : ptLe [true] [.num 10000] [.num 30000] = false := by decide
+  have h2 : ptLe [true] [.num 30000] [.num 20000] = true := by decide
+  have h3 : ptLe [true] [.num 10000] [.num 20000] = false := by decide
+  have hd : descsOf req1 = [true] := by decide
+  have hs : req1.sort.isEmpty = false := by decide
+  have hw : (requestColumns logT req1).length = 4 := by decide
+  simp [cutKeyed, sortedKeyed, keyed1, hd, hs, List.mergeSort, List.MergeSort.Internal.splitInTwo, h1, h2, h3,
+    cutRow, hw, rowA1, rowA2, rowB1]
+
+example : (ptData logT req1 [peerA, peerC, peerB]).rows = [rowA2, rowB1, rowA1] ∧
+    (ptData logT req1 [peerA, peerC, peerB]).keys = [[.num 30000], [.num 20000], [.num 10000]] ∧
+    (ptData logT req1 [peerA, peerC, peerB]).total = 3 ∧
+    (ptData logT req1 [peerA, peerC, peerB]).failed = [("c", "connection refused")] := by
+  rw [ptData_eq, cutKeyed1]
+  exact ⟨rfl, rfl, rfl, by decide⟩
+
+/-- `Limit: 1` + `Offset: 1` answers the second row -/
+example : (ptData logT { req1 with limit := some 1, offset := 1 } [peerA, peerC, peerB]).window = [rowB1] := by
+  have h : cutKeyed logT { req1 with limit := some 1, offset := 1 } [peerA, peerC, peerB] =
+      cutKeyed logT req1 [peerA, peerC, peerB] := rfl
+  rw [ptData_eq, h, cutKeyed1]
+  rfl
+
+/-- `Stats: class = 1` + `Stats: sum state` -/
+def reqS : Request :=
+  { table := "log",
+    stats := [.counter (.leaf { col := cClass, op := .eq, sval := "1", num := 1000 } false), .agg .sum cState false] }
+
+def peerSA : PTPeer := { id := "a", name := "Alpha", online := true, reply := some [[n 3, n 5]] }
+def peerSB : PTPeer := { id := "b", name := "Beta", online := true, reply := some [[n 4, n 7]] }
+
+/-- the counters 3 and 4 add up to 7, the sums 5 and 7 to 12 (in milli units) -/
+example : (ptStats logT reqS [peerSA, peerC, peerSB]).rows =
+    [([], [{ kind := .counter, stats := 7, count := 7 }, { kind := .sum, stats := 12000, count := 2 }])] ∧
+    (ptStats logT reqS [peerSA, peerC, peerSB]).skipped = 0 := by decide
+
+example : ptApply [.counter, .sum] [Acc.init .counter, Acc.init .sum] [n 3, n 5] =
+    [{ kind := .counter, stats := 3, count := 3 }, { kind := .sum, stats := 5000, count := 1 }] := by decide
+
+example : reqS.columns = [] ∧ reqS.stats ≠ [] := ⟨rfl, by simp [reqS]⟩
+
+example : slotFinal .counter [n 3, n 4] = (7, 1) ∧ slotFinal .sum [n 5, n 7] = (12000, 1) ∧
+    slotFinal .min [n 5, n 7] = (5000, 1) ∧ slotFinal .max [n 5, n 7] = (7000, 1) := by decide
+
+/-- grouped: `Columns: class` + `Stats: sum state`; equal keys are added, different keys stay apart -/
+def reqG : Request := { table := "log", columns := ["class"], stats := [.agg .sum cState false] }
+def peerGA : PTPeer := { id := "a", name := "Alpha", online := true, reply := some [[n 1, n 5], [n 2, n 1]] }
+def peerGB : PTPeer := { id := "b", name := "Beta", online := true, reply := some [[n 1, n 7], [n 9]] }
+
+example : (ptStats logT reqG [peerGA, peerGB]).rows =
+    [(["1"], [{ kind := .sum, stats := 12000, count := 2 }]), (["2"], [{ kind := .sum, stats := 1000, count := 1 }])] ∧
+    (ptStats logT reqG [peerGA, peerGB]).skipped = 1 := by decide
+
+/-- nobody answers -/
+example : (ptStats logT reqS [peerC]).rows = [([], [Acc.init .counter, Acc.init .sum])] ∧
+    (ptData logT req1 [peerC]).rows = [] ∧ (ptData logT req1 [peerC]).failed = [("c", "connection refused")] := by
+  refine ⟨by decide, ?_, by decide⟩
+  exact (no_answer_data logT req1 [peerC] (by decide)).1
+
+end Ex
 
 end Lmd.C16
